@@ -118,12 +118,12 @@ func remoteScenarios() ([]*remoteScenario, error) {
 	ctxdoc := nMap("user", nMap("roles", nList(nStr("admin")), "level", nInt(3)), "flags", nList(nBool(true)), "note", nNull())
 
 	valid := map[string]string{
-		"idp.local/jwks":      jwks.JSON(),
+		"idp.local/jwks": jwks.JSON(),
 		"idp.local/.well-known/oauth-authorization-server": metadata.JSON(),
-		"idp.local/introspect": introspection.JSON(),
-		"idp.local/me":        identity.JSON(),
-		"authz.local/check":   authorization.JSON(),
-		"ctx.local/info":      ctxdoc.JSON(),
+		"idp.local/introspect":                             introspection.JSON(),
+		"idp.local/me":                                     identity.JSON(),
+		"authz.local/check":                                authorization.JSON(),
+		"ctx.local/info":                                   ctxdoc.JSON(),
 	}
 
 	request := func() *hx.Ctx {
@@ -197,9 +197,9 @@ func remoteScenarios() ([]*remoteScenario, error) {
 	out = append(out, &remoteScenario{name: "identity", host: "idp.local", path: "/me", doc: identity, exec: ex})
 
 	az, err := authorizers.CreatePrototype(cc, "remote", "remote", map[string]any{
-		"endpoint":    map[string]any{"url": "http://authz.local/check"},
-		"payload":     `{"sub": {{ quote .Subject.ID }}}`,
-		"expressions": []any{map[string]any{"expression": "Payload.allowed == true", "message": "denied"}},
+		"endpoint":                             map[string]any{"url": "http://authz.local/check"},
+		"payload":                              `{"sub": {{ quote .Subject.ID }}}`,
+		"expressions":                          []any{map[string]any{"expression": "Payload.allowed == true", "message": "denied"}},
 		"forward_response_headers_to_upstream": []string{"X-Decision"},
 	})
 	if err != nil {
